@@ -34,7 +34,7 @@ typedef struct actx {
     vd_audio au; long off;                 /* audio of the current utterance */
     seg_iter_t *seg; hyp_iter_t *nb; lattice_t *lat[4]; int nlat; alignment_t *al[4]; int nal; alignment_iter_t *ait;
     int extra_refs; int hostile; vh_rng *r; int nops; vh_sb log;
-    int added;
+    int added; vd_cfg cfg; int logging;
 } actx;
 
 static long ncases(int tier, long req) { if (req >= 0) return req; return tier ? 30000 : 600; }
@@ -224,6 +224,27 @@ static void op_poll(actx *c)
     vh_count("polling_utterances", 1); vh_count("partial_hypothesis_word_to_nothing_flips", flips);
 }
 
+/* a new configuration object for the same model (other cmn / compallsen): decoder_reinit consumes it */
+static void op_reinit_config(actx *c)
+{
+    vd_cfg n = c->cfg; config_t *cf; int rv;
+    drop_iters(c);
+    if (c->st == ST_STARTED) return;
+    n.cmn = VH_PICK(c->r, ((const char *[]){ "live", "batch", "none" })); n.compallsen = (int)vh_below(c->r, 2);
+    cf = vd_make_config(&n);
+    vh_ctx("decoder_reinit"); rv = decoder_reinit(c->d, cf); LOG(c, "reinit(new config cmn=%s compallsen=%d)=%d ", n.cmn, n.compallsen, rv);
+    expect(c, rv == 0, "reinit_with_new_config_fails", "decoder_reinit with a valid new configuration returned %d", rv);
+    if (rv == 0) { c->cfg = n; c->have_gram = 0; c->st = ST_IDLE; vh_count("reinits_with_new_config", 1); }
+}
+static void op_logfile(actx *c)
+{
+    int rv;
+    if (!c->logging) { char *path = vh_path("%s/log%ld.txt", vh_tmpdir(), vh_case); vh_ctx("decoder_set_logfile"); rv = decoder_set_logfile(c->d, path); LOG(c, "set_logfile=%d ", rv); if (rv == 0) { c->logging = 1; err_set_loglevel(ERR_INFO); } }
+    else { vh_ctx("decoder_set_logfile"); rv = decoder_set_logfile(c->d, NULL); err_set_loglevel(ERR_FATAL); c->logging = 0; LOG(c, "set_logfile(NULL)=%d ", rv); unlink(vh_path("%s/log%ld.txt", vh_tmpdir(), vh_case)); }
+    expect(c, rv == 0, "set_logfile_fails", "decoder_set_logfile returned %d", rv);
+    vh_count("logfile_switches", 1);
+}
+
 /* an identity MLLR transform (A = I, b = 0, h = 1) of the model's shape: applying it must change nothing */
 static void op_mllr(actx *c)
 {
@@ -267,7 +288,10 @@ static void op_standalone(actx *c)
     if (k == 0) {
         vd_gram g; s3file_t *s3; fsg_model_t *f; vd_gram_random(c->r, c->lang, VG_FSG_TEXT, 0.5, &g);
         s3 = s3file_init(g.text.s, g.text.n); vh_ctx("fsg_model_read_s3file"); f = fsg_model_read_s3file(s3, decoder_logmath(c->d), 1.0f); s3file_free(s3);
-        if (f) { fsg_arciter_t *it; vh_ctx("fsg_model_arcs"); it = fsg_model_arcs(f, 0); if (it) { (void)fsg_arciter_get(it); fsg_arciter_free(it); } fsg_model_retain(f); fsg_model_free(f); vh_ctx("fsg_model_free"); fsg_model_free(f); }
+        if (f) { fsg_arciter_t *it; char *wp = vh_path("%s/w%ld.fsg", vh_tmpdir(), vh_case); fsg_model_t *f2; vh_ctx("fsg_model_arcs"); it = fsg_model_arcs(f, 0); if (it) { (void)fsg_arciter_get(it); fsg_arciter_free(it); }
+            vh_ctx("fsg_model_writefile"); fsg_model_writefile(f, wp); vh_ctx("fsg_model_readfile"); f2 = fsg_model_readfile(wp, decoder_logmath(c->d), 1.0f); unlink(wp); if (f2) fsg_model_free(f2);
+            vh_ctx("fsg_model_writefile_fsm"); fsg_model_writefile_fsm(f, wp); unlink(wp); vh_ctx("fsg_model_writefile_symtab"); fsg_model_writefile_symtab(f, wp); unlink(wp);
+            fsg_model_retain(f); fsg_model_free(f); vh_ctx("fsg_model_free"); fsg_model_free(f); }
         vd_gram_free(&g); LOG(c, "fsg_standalone ");
     } else if (k == 1) {
         vd_gram g; jsgf_t *j; vd_gram_random(c->r, c->lang, VG_JSGF_SLOTS, 0.5, &g);
@@ -325,7 +349,7 @@ static void run(long i, vh_rng *r)
     vd_cfg_default(&cfg, c.lang);
     if (vh_chance(r, 0.2)) cfg.compallsen = 1;
     if (vh_chance(r, 0.1)) cfg.cmn = VH_PICK(r, ((const char *[]){ "batch", "none" }));
-    cf = vd_make_config(&cfg);
+    c.cfg = cfg; cf = vd_make_config(&cfg);
     vh_desc("%s cmn=%s compallsen=%d; %s history", c.lang == VD_FR ? "fr-fr" : "en-us", cfg.cmn, cfg.compallsen, c.hostile ? "hostile (out-of-order and degenerate calls injected)" : "protocol-conforming");
     if (vh_chance(r, 0.2)) { vh_ctx("decoder_create"); c.d = decoder_create(cf); if (c.d) { vh_ctx("decoder_reinit"); if (decoder_reinit(c.d, NULL) < 0) { decoder_free(c.d); c.d = NULL; } } LOG(&c, "create+reinit "); }
     else { vh_ctx("decoder_init"); c.d = decoder_init(cf); LOG(&c, "init "); }
@@ -347,7 +371,7 @@ static void run(long i, vh_rng *r)
             if (u < 0.55) op_process(&c); else if (u < 0.85) op_query(&c); else if (u < 0.93 || c.off >= c.au.n) op_end(&c); else op_standalone(&c);
         } else {
             if (!c.have_gram) { if (u < 0.7) op_grammar(&c); else if (u < 0.8) op_query(&c); else if (u < 0.9) op_words(&c); else op_standalone(&c); }
-            else if (u < 0.30) op_start(&c); else if (u < 0.32) op_mllr(&c); else if (u < 0.35) op_poll(&c); else if (u < 0.5) op_grammar(&c); else if (u < 0.6) op_words(&c); else if (u < 0.9) op_query(&c);
+            else if (u < 0.28) op_start(&c); else if (u < 0.29) op_reinit_config(&c); else if (u < 0.30) op_logfile(&c); else if (u < 0.32) op_mllr(&c); else if (u < 0.35) op_poll(&c); else if (u < 0.5) op_grammar(&c); else if (u < 0.6) op_words(&c); else if (u < 0.9) op_query(&c);
             else if (u < 0.93) { int rv; drop_iters(&c); vh_ctx("decoder_reinit"); rv = decoder_reinit(c.d, NULL); LOG(&c, "reinit(NULL)=%d ", rv); expect(&c, rv == 0, "reinit_null_fails", "decoder_reinit(d, NULL) returned %d", rv); c.have_gram = 0; c.st = ST_IDLE; vh_count("reinits", 1); }
             else op_standalone(&c);
         }
@@ -357,17 +381,19 @@ static void run(long i, vh_rng *r)
         char got[256], want[256]; int32 gs, ws; int rv;
         drop_iters(&c);
         if (c.st == ST_STARTED) { vh_ctx("decoder_end_utt"); decoder_end_utt(c.d); c.st = ST_ENDED; }
-        vh_ctx("reference_decoder"); reference(&cfg, c.lang, want, sizeof(want), &ws);
+        vh_ctx("reference_decoder"); reference(&c.cfg, c.lang, want, sizeof(want), &ws);
         vh_ctx("probe_utterance"); rv = probe(c.d, c.lang, got, sizeof(got), &gs);
         expect(&c, !strcmp(got, want) && gs == ws, strcmp(got, want) ? "decoder_not_usable_after_history|hypothesis" : "decoder_not_usable_after_history|score", "after the history a conforming utterance gives \"%s\" score %d (calls returned %d), a fresh decoder of the same configuration gives \"%s\" score %d", got, gs, rv, want, ws);
         vh_count("usability_probes", 1); c.st = ST_ENDED; LOG(&c, "probe ");
     } else if (c.st == ST_STARTED) vh_count("decoders_freed_mid_utterance", 1);
+    if (c.logging && vh_chance(r, 0.5)) op_logfile(&c);      /* otherwise the decoder is freed while it owns the log file */
     /* release every reference the history took, in a random order relative to the decoder */
     drop_iters(&c);
     if (vh_chance(r, 0.5)) { for (k = 0; k < c.nlat; ++k) { vh_ctx("lattice_free"); lattice_free(c.lat[k]); } c.nlat = 0; }
     if (vh_chance(r, 0.5)) { for (k = 0; k < c.nal; ++k) { vh_ctx("alignment_free"); alignment_free(c.al[k]); } c.nal = 0; }
     while (c.extra_refs > 0) { decoder_free(c.d); --c.extra_refs; }
     vh_ctx("decoder_free"); rc = decoder_free(c.d); LOG(&c, "decoder_free=%d ", rc);
+    if (c.logging) { err_set_loglevel(ERR_FATAL); unlink(vh_path("%s/log%ld.txt", vh_tmpdir(), vh_case)); }
     expect(&c, rc == 0, "refcount_wrong_at_end", "the last decoder_free returned %d", rc);
     for (k = 0; k < c.nlat; ++k) { vh_ctx("lattice_free_after_decoder"); lattice_free(c.lat[k]); vh_count("lattices_freed_after_decoder", 1); }
     for (k = 0; k < c.nal; ++k) { vh_ctx("alignment_free_after_decoder"); alignment_free(c.al[k]); vh_count("alignments_freed_after_decoder", 1); }
